@@ -50,6 +50,13 @@ fn glued_text(e: &E) -> String {
     out
 }
 
+/// every token on a line of its own, starting in column 0 (an operator may end one line and another begin the next)
+fn one_token_per_line(e: &E) -> String {
+    let mut toks = Vec::new();
+    expr_tokens(e, Paren::Minimal, &mut toks);
+    format!("SELECT\n{}\nFROM t", toks.iter().map(|t| t.text.as_str()).collect::<Vec<_>>().join("\n"))
+}
+
 fn parsed_projection(text: &str) -> Result<Option<E>, String> {
     match guard(|| sqlgrep::parsing::parse(text)) {
         Err(p) => Err(format!("panic:{}", p.sig())),
@@ -155,6 +162,15 @@ impl Monitor for C13 {
                 Ok(Some(g)) => { let g = canon(&g); if g != want { let (w, gg) = first_difference(&want, &g).unwrap_or((&want, &g)); vs.push(Violation::new(format!("glued|{}", grouping_sig(w, Ok(gg))), format!("text {:?}: expected sub-tree {}, parsed as {}", glued, render(w, Paren::Full), render(gg, Paren::Full)))); } }
                 Ok(None) => {}
                 Err(e) => vs.push(Violation::new(format!("glued|reject|{}", e.chars().filter(|c| !c.is_ascii_digit()).take(40).collect::<String>()), format!("text {:?} rejected: {} (with single blanks between the tokens it is {:?})", glued, e, min))),
+            }
+        }
+        if full_ok && kind != "extra-parens" {
+            let lines = one_token_per_line(&ast);
+            obs.evals += 1;
+            match parsed_projection(&lines) {
+                Ok(Some(g)) => { let g = canon(&g); if g != want { let (w, gg) = first_difference(&want, &g).unwrap_or((&want, &g)); vs.push(Violation::new(format!("token-per-line|{}", grouping_sig(w, Ok(gg))), format!("text {:?}: expected sub-tree {}, parsed as {}", lines, render(w, Paren::Full), render(gg, Paren::Full)))); } }
+                Ok(None) => {}
+                Err(e) => vs.push(Violation::new(format!("token-per-line|reject|{}", e.chars().filter(|c| !c.is_ascii_digit()).take(40).collect::<String>()), format!("text {:?} rejected: {}", lines, e))),
             }
         }
         match parsed_projection(&min) {
